@@ -350,6 +350,10 @@ def public_reads(det) -> dict:
             except Exception as e:  # noqa: BLE001
                 v = "raises:" + type(e).__name__
             out[name] = canon_public(v)
+    # public plain ATTRIBUTES of the instance (a property turned into an attribute is still something a user reads)
+    for name, v in vars(det).items():
+        if not name.startswith("_") and name not in out and name not in ("config", "callbacks"):
+            out[name] = canon_public(v)
     if hasattr(det, "drift"):
         out["drift"] = canon_public(det.drift)
     return out
